@@ -281,7 +281,46 @@ def run(seeds):
     return fails, counts
 
 
+def check_collapse_order(fails):
+    """C14 deterministic family: collapse in a custom order (keep the `collapse_limit` documents with the smallest `n` per
+    key) combined with a limit and score pruning over two segments, on corpora where the top-N heap never has to bring back
+    a document it evicted (that is the recorded finding c14_collapse_order_forgets): limited == prefix of unlimited, and the
+    unlimited result == the model."""
+    from whoosh import fields, query, scoring
+    from whoosh.filedb.filestore import RamStorage
+    cases = [([("z", 3, 3), ("y", 3, 3), ("x", 0, 2), ("z", 5, 4), ("x", 3, 1), ("z", 4, 2), ("z", 4, 3), ("z", 4, 1), ("x", 5, 2), ("z", 2, 3)], 5, 2, 3),
+             ([("a", 1, 1), ("a", 0, 5), ("b", 2, 4), ("a", 3, 6), ("b", 1, 1), ("b", 0, 2)], 3, 1, 2)]
+    for docs, cut, cl, lim in cases:
+        ix = RamStorage().create_index(fields.Schema(k=fields.ID(stored=True), g=fields.ID(sortable=True), n=fields.NUMERIC(sortable=True), t=fields.TEXT))
+        w = ix.writer()
+        for i, (g, n, tf) in enumerate(docs):
+            if i == cut:
+                w.commit(merge=False)
+                w = ix.writer()
+            w.add_document(k=u"%d" % i, g=u"%s" % g, n=n, t=u" ".join([u"aa"] * tf))
+        w.commit(merge=False)
+        keep = []
+        for gv in sorted(set(d[0] for d in docs)):
+            keep += [i for _, i in sorted((d[1], i) for i, d in enumerate(docs) if d[0] == gv)[:cl]]
+        exp = sorted(keep, key=lambda i: (-docs[i][2], i))
+        with ix.searcher(weighting=scoring.Frequency()) as s:
+            q = query.Term("t", u"aa")
+            for opt in (True, False):
+                full = [int(h["k"]) for h in s.search(q, limit=None, collapse="g", collapse_limit=cl, collapse_order="n", optimize=opt)]
+                got = [int(h["k"]) for h in s.search(q, limit=lim, collapse="g", collapse_limit=cl, collapse_order="n", optimize=opt)]
+                if full != exp or got != exp[:lim]:
+                    fails.append({"case": "C14-collapse-order-pruning", "detail": "docs (key, n, tf) %r cut at %d, collapse_limit=%d collapse_order=n "
+                                  "optimize=%s: unlimited %r, limit=%d %r; expected %r" % (docs, cut, cl, opt, full, lim, got, exp), "corpus": None})
+                    return
+
+
 def main():
+    if sys.argv[1] == "--deterministic":
+        fails = []
+        check_collapse_order(fails)
+        for f in fails:
+            print("FAIL", f["case"], "|", f["detail"])
+        sys.exit(1 if fails else 0)
     if sys.argv[1] == "--corpus":
         corpus = json.loads(sys.argv[2])
         fails, counts = [], {"corpora": 0, "queries": 0}
@@ -297,6 +336,10 @@ def main():
     with multiprocessing.get_context("fork").Pool(jobs) as pool:
         outs = pool.map(run, [seeds[i::jobs] for i in range(jobs)])
     fails = [f for fs, _ in outs for f in fs]
+    try:
+        check_collapse_order(fails)
+    except Exception:
+        fails.append({"case": "exception/collapse-order", "detail": traceback.format_exc()[-600:], "corpus": None})
     seen, uniq = set(), []
     for f in fails:
         if f["case"] not in seen:
